@@ -186,6 +186,10 @@ def check(ctx, rep):
             tys = [tse.body.local_ty(a).peel_refs().path for a in args]
             good = good and all(t == "normalized_string::NormalizedString" for t in tys)
         rep.check(good, "case", fn, "normalized-text", "name/password enter the hash as the normalised (upper-cased) text", "a hash takes the name/password in another form than NormalizedString::as_ref()")
+    # ... and that view is the case-folded text: the C13 obligations about what is stored, shown
+    # and who may construct are necessary for "typed in any letter case"
+    from . import c13
+    c13.check(ctx, rep_select(rep, "case", {"normal-form", "view", "who-may-construct", "constructors"}))
 
 
 class rep_filter:
@@ -205,3 +209,27 @@ class rep_filter:
 
     def undecided(self, rule, fn, role, d, loc=None):
         return self.rep.undecided(self.rule, fn, role, d, loc)
+
+
+class rep_select(rep_filter):
+    """re-files only the obligations of the listed rules; the others are dropped (they are
+    claimed by the property the shared rule belongs to)"""
+
+    def __init__(self, rep, rule, keep):
+        self.rep, self.rule, self.keep = rep, rule, keep
+
+    def check(self, cond, rule, fn, role, a, b, loc=None):
+        if rule in self.keep:
+            return self.rep.check(cond, self.rule, fn, rule + ":" + role, a, b, loc)
+
+    def violation(self, rule, fn, role, d, loc=None):
+        if rule in self.keep:
+            return self.rep.violation(self.rule, fn, rule + ":" + role, d, loc)
+
+    def ok(self, rule, fn, role, d="", loc=None):
+        if rule in self.keep:
+            return self.rep.ok(self.rule, fn, rule + ":" + role, d, loc)
+
+    def undecided(self, rule, fn, role, d, loc=None):
+        if rule in self.keep:
+            return self.rep.undecided(self.rule, fn, rule + ":" + role, d, loc)
